@@ -22,3 +22,4 @@ import MicroHttp.Props.Tables
 #print axioms MicroHttp.Tables.media_tryFrom
 #print axioms MicroHttp.Tables.status_raw
 #print axioms MicroHttp.Tables.http_scheme_prefix
+#print axioms MicroHttp.Tables.no_shared_state
